@@ -23,6 +23,7 @@ import re
 import subprocess
 import sys
 import tempfile
+import zlib
 from contextlib import contextmanager
 
 from vf.core.util import case_watchdog
@@ -46,7 +47,8 @@ LEVEL_TEXT = ("Each tree is really loaded, serialised in both forms, decoded fro
               "real command line in a subprocess and compared byte for byte with the in-process serialisation.")
 LEVEL_NOTE = ("trusted: CPython's json module, the parallel walker written for this check; decoding the *full* form is not "
               "part of the contract; docstring parser left at its default (the parser is a load option that no dump "
-              "stores); memory addresses in inspected reprs are masked in the CLI comparison (two processes)")
+              "stores); memory addresses in inspected reprs are masked in the CLI comparison (two processes); the CLI child runs "
+              "with a different PYTHONHASHSEED than the harness")
 TECHNIQUE = "runtime monitoring: round-trip oracle (encode / decode / re-encode + parallel tree walk) and CLI-vs-API differential"
 REQUIRED_COUNTERS = ["trees_loaded", "static_trees", "dynamic_trees", "resolved_trees", "namespace_trees", "builtin_trees",
                      "stdlib_trees", "own_package_trees", "serialised_minimal", "serialised_full", "decoded",
@@ -441,8 +443,10 @@ def classify_decode_error(exc: BaseException, stats: dict) -> str | None:
         return ID_LINENO
     if isinstance(exc, TypeError) and "_load_module" in frames and (stats["list_filepath"] or stats["null_filepath"]):
         return ID_FILEPATH
-    if stats["member_keys"] and frames and ((isinstance(exc, KeyError) and frames[-1] == "_load_parameter") or
-                                            (isinstance(exc, TypeError) and frames[-1] == "_load_expression")):
+    if stats["member_keys"] and isinstance(exc, (KeyError, TypeError, ValueError, AttributeError)) and "json_decoder" in frames and \
+            ("_load_parameter" in frames or "_load_expression" in frames):
+        # a members map was mistaken for a parameter ('kind' key: KeyError 'name' / invalid ParameterKind) or for an
+        # expression ('cls' key: getattr(expressions, <object>))
         return ID_MEMBER_KEY
     return None
 
@@ -652,6 +656,8 @@ def run_cli(rec, case: dict) -> None:  # noqa: ANN001, C901, PLR0912
             env = {k: v for k, v in os.environ.items() if k not in ("PYTHONPATH", "GRIFFE_VERIF")}
             env["PYTHONPATH"] = os.path.join(os.path.realpath(os.environ.get("VERIF_REPO", "/repo")), "src")
             env["PYTHONDONTWRITEBYTECODE"] = "1"
+            # the emitted text must not depend on the string-hash seed of the dumping process (set iteration order)
+            env["PYTHONHASHSEED"] = str(1 + zlib.crc32(case["package"].encode()) % 4096)
             proc = subprocess.run(argv, env=env, cwd=os.getcwd(), stdout=subprocess.PIPE, stderr=subprocess.PIPE, timeout=240,
                                   check=False, stdin=subprocess.DEVNULL)
             if out_mode == "stdout":
